@@ -761,9 +761,28 @@ class VizierServicer(vizier_service_pb2_grpc.VizierServiceServicer):
       temp_pythia_service = self._select_pythia_service(
           study_config.pythia_endpoint
       )
-      early_stopping_decisions_proto = temp_pythia_service.EarlyStop(
-          early_stop_request_proto
-      )
+      try:
+        early_stopping_decisions_proto = temp_pythia_service.EarlyStop(
+            early_stop_request_proto
+        )
+      # Pythia can raise any exception. Report it, and mark the operation as
+      # FAILED so that it is not served to later checks of this trial.
+      except Exception as e:  # pylint: disable=broad-except
+        logging.exception(
+            'Failed to obtain early stopping decisions from Pythia for'
+            ' request: %s',
+            request,
+        )
+        output_operation.status = (
+            vizier_oss_pb2.EarlyStoppingOperation.Status.FAILED
+        )
+        output_operation.failure_message = str(e)
+        output_operation.ClearField('completion_time')
+        self.datastore.update_early_stopping_operation(output_operation)
+        grpc_util.handle_exception(e, context)
+        return vizier_service_pb2.CheckTrialEarlyStoppingStateResponse(
+            should_stop=False
+        )
       early_stopping_decisions = svz.EarlyStopConverter.from_decisions_proto(
           early_stopping_decisions_proto
       )
